@@ -293,6 +293,54 @@ CHECKS["C12"] = dict(
     assumptions=[],
 )
 
+CHECKS["C07"] = dict(
+    stages=[stage("C07", harness="COLA", props=["C07."], quick=dict(cases=2400, size=100, shards=12), thorough=dict(cases=150000, size=100, shards=16), case_timeout=600)],
+    technique="rapidcheck property-based testing: generated graphs and constraint mixes through ConstrainedFDLayout, judged by an independent "
+              "evaluator of each compound constraint's meaning on the final rectangle centres",
+    level_text="Generated graphs (1-12 nodes quick, 30 thorough; edgeless, disconnected, piles of coincident nodes) with 1-7 compound constraints: "
+               "node separations (eq/ineq), alignments with offsets (optionally fixed), boundaries, distributions / multi-separations / "
+               "separations between alignments, fixed-relative groups; half of the mixes are built from a witness placement (jointly "
+               "satisfiable), half are free (possibly unsatisfiable).  makeFeasible() on/off, run() in x, y or both, overlap avoidance and "
+               "neighbour stress on/off.  Afterwards every constraint not reported through the UnsatisfiableConstraintInfos must hold on the "
+               "rectangle centres to 1e-4, sizes must be unchanged and coordinates finite.",
+    level_note="Each node is in at most one alignment per dimension (redundant equalities are documented as unsupported).  "
+               "ConstrainedMajorizationLayout and PageBoundaryConstraints are not exercised.",
+    rule="rapidcheck-generated layouts; non-trivial = at least two constraint kinds present and at least one constraint violated by the initial placement; distinct by FNV-1a of the case text",
+    min_nontrivial=dict(quick=400, thorough=20000),
+    assumptions=[],
+)
+
+CHECKS["C08"] = dict(
+    stages=[stage("C08", harness="COLA", props=["C08."], quick=dict(cases=12000, size=100, shards=12), thorough=dict(cases=100000, size=100, shards=16), case_timeout=600)],
+    technique="rapidcheck property-based testing: heavily overlapping generated layouts through makeFeasible()+run() with overlap avoidance, "
+              "judged by pairwise rectangle overlap and cluster member-bounding-box predicates",
+    level_text="Generated graphs (1-10 nodes quick, 24 thorough) with piles of coincident / nearly coincident nodes, optional exemption groups, "
+               "optional rectangular-cluster hierarchies (1-3 clusters, padding and margin 0-10, one level of nesting, unclustered nodes), or "
+               "witness-built user constraints whose witness is an overlap-free grid.  After makeFeasible() and run() with overlap avoidance, "
+               "when nothing was reported unsatisfiable: no non-exempt pair of rectangles overlaps by more than 1e-3 in both axes, member "
+               "bounding boxes of sibling clusters do not overlap, and no node lies inside the member bounding box of a cluster it does not belong to.",
+    level_note="Cases where the layout reports an unsatisfiable constraint are outside the property and counted.",
+    rule="rapidcheck-generated layouts; non-trivial = at least one pair overlaps initially; distinct by FNV-1a of the case text",
+    min_nontrivial=dict(quick=500, thorough=30000),
+    assumptions=[],
+)
+
+CHECKS["C13"] = dict(
+    stages=[stage("C13", quick=dict(cases=4800, size=100, shards=12), thorough=dict(cases=30000, size=100, shards=16), case_timeout=900)],
+    technique="rapidcheck property-based testing: generated node sets routed by libavoid, laid out by ConstrainedFDLayout + ColaTopologyAddon and "
+              "stopped after a generated number of iterations; independent segment/rectangle and corner predicates on the result",
+    level_text="Generated sets of 2-12 (thorough 20) non-overlapping node rectangles (gap 5/10/20, on and off a 10-lattice), random simple edges, "
+               "initial routes from libavoid polyline routing centre to centre (tight around corners), then topology-preserving force-directed "
+               "layout with overlap avoidance, stopped after 1-30 iterations or run to convergence.  In the state it stops in: no segment of "
+               "an edge path passes through the interior (shrunk by 1e-6) of a node other than its end nodes, no two nodes overlap (1e-3), every "
+               "path still runs between its original end nodes, every bend lies on a corner of its node and turns around that node.",
+    level_note="'During layout' is sampled by stopping after a generated iteration count, not by observing every internal step.  The side-"
+               "signature clause is covered only through these local conditions (a global signature is not invariant when end nodes move).",
+    rule="rapidcheck-generated scenes; non-trivial = at least one initial route has a bend and at least one node moved by more than its own size; distinct by FNV-1a of the case text",
+    min_nontrivial=dict(quick=600, thorough=5000),
+    assumptions=["initial routes come from libavoid (UseLeesAlgorithm, no invisibility graph), as in libtopology/tests/beautify.cpp"],
+)
+
 # every check treats a library assertion at a site that is not a listed C15 finding as a violation of its own property
 for _k in CHECKS:
     NOT_APPLICABLE.pop(_k, None)
